@@ -75,7 +75,7 @@ def is_helper(d, known):
         return False
     if d["short"].startswith("operator") or d["short"].startswith("~"):
         return False
-    if d["kind"] == "method" and d.get("access", 0) not in (1, 2) and not d["file"].endswith(".cpp"):
+    if d["kind"] == "method" and d.get("access", 0) not in (1, 2) and d.get("outer_access", 0) not in (1, 2) and not d["file"].endswith(".cpp"):
         return False      # public member of a class declared in a header: callable by anyone, analysed stand-alone
     if d["kind"] == "func" and not d["file"].endswith(".cpp"):
         return False
